@@ -110,6 +110,8 @@ var c14Features = func() []string {
 	// c14_r5.go: parenthesised nested targets, types declared in nested scopes, one
 	// function value called from several goroutines of a run
 	f = append(f, c14R5Features()...)
+	// c14_r9.go: the run's context cancelled while an operand of a ready channel expression is evaluated
+	f = append(f, c14R9CancelOperandPrograms...)
 	return f
 }()
 
@@ -337,7 +339,7 @@ func init() {
 			nConc := c14ConcPrograms(tier) + c14ConcPrograms(tier)/6 + c14R5ConcExtra(tier)
 			return fw.Plan{
 				Level: "exploration",
-				Rule:  "each program (hand-written feature programs aimed at per-node runtime data: named/anonymous calls, defer, ++/--, small-int and large-int arithmetic, every literal kind, maps that grow while they are ranged over, import with reassignment of imported members, modules, typed literals, make(type); PRNG-generated programs of all profiles; the repository's own goroutine-free scripts) is parsed ONCE; phase seq: the tree is dumped by reflection, run 3 times (feature programs 8 times) in fresh equal environments and dumped after each run; phase conc (race build): a solo run of a separately parsed tree is the reference, then 8 goroutines run the ONE shared tree at the same time on 8 fresh environments behind a barrier. Required: dumps byte-identical, every run's value/error text/probe trace equal to the solo run, canaries on the shared ++ literal, the small-int cache, the package tables and import isolation after each case, no race report. Non-trivial = parsed and produced at least one probe event or a non-nil value; distinct = distinct source text. Phase hist (process-history independence): complementary sets of programs that drive one interpreter facility with different shapes (plain/variadic, named/anonymous script functions of every arity 0..7 and as Go callbacks; typed slice/map literals, channels and make() over every basic element type; make(type) binding one name to different types; struct types with different field lists; modules of one name with different contents; imports of different packages in different orders; host calls with different argument shapes; the feature programs above; PRNG-generated programs) — a case draws 2..6 members (one group, mixed, or with a generated program), orders them by the PRNG, sometimes repeats the first at the end, and runs them one after the other in the worker process, whose history also holds all earlier cases of its chunk and the canaries; each member's observation must equal its SOLO observation = the program run as the first and only program of a fresh child process. Phase iso (environments never observe each other's bindings): (modcopy) a script binds a module or an imported package to further names (n = m, var n = m, n, k = m, m, through a function result, a list element, a copy of a copy), changes ONE side (member assignment, module functions that set or delete with and without the global flag, also from a nested module, top-level assignment/definition/deletion/var/type definition/function and module definition) and records the view of every side before and after: the views of all other sides must not change; (envcopy) a template environment one or two scopes deep is copied with Env.DeepCopy / Env.Copy (also a copy of a copy), 1..4 changes are applied to one of them through the env API (Define, Set, Delete, DeleteGlobal, DefineType, DefineGlobal, DefineGlobalType, NewModule) or by a script handed to vm.Execute with it, and after every change the views of all OTHER environments (env API Get/Type of every watched name, and a script reading the same names) must be unchanged; (stamp) 2..4 environments stamped from one template (all before the first run, or one by one) run the same source of reads and binding changes: equal value and error text in every run, template unchanged. Phase conc additionally runs stamp cases with 6 environments at the same time in the race build. Canaries after each case also cover: script functions of every arity 0..7 plain and variadic, Env.Copy/DeepCopy isolation, module-copy isolation. Round 4 (c14_env.go): a program may carry a first-line comment `# env: ...` after which the host prepares the otherwise standard environment (env.DefineType of the names T, U and hm.T — in a host-made module — with one of 11 Go types, host float32 values, a meet() function). (a) Feature programs: == / != / in / switch between a float32 (from []float32, [][]float32, map[string]float32 literals and host float32 values) and an ordinary script float, in loops; script functions that end with an error 100..600 times per run (throw, index error, undefined name; through 1..15 nested named, anonymous and module functions and through Go callbacks; always caught further out); recursion 2500 deep (named, closure, mutually recursive) that calls meet() at the bottom — in phase conc the first meet() of each of the 8 runs waits until all runs have called it or have ended, so the deep runs really overlap; error exits followed by a recursion 4000 deep in one program (run k vs run 1; phases seq and hist only, like the error-exit programs). (b) envmix cases (every 37th case of seq and every 60th of the shared-tree part of conc): ONE tree of a text whose struct/slice/map/chan/pointer type expressions name T, U, hm.T is run 4..6 times one after the other (seq) or by 8 goroutines at once (conc) in environments drawn from 2..4 DIFFERENT type bindings; each run must equal the same text run alone in an environment of its kind in a fresh child process. (c) hist: every case with index%10==3 takes one such text under 2..4 different type bindings (the child prepares its environment after the same first line), sometimes with a script that binds the names itself (make(type T, v), module hm { make(type T, v) }; also rebinding T between two evaluations of one type expression); every case with index%10==6 draws from the call-depth group (the error-exit programs and recursions 4000/9000 deep: named, closure, mutually recursive, module function, twice in a row), so that each worker process runs deep recursions after thousands of error exits; both groups are in the ordinary draws too. Round 5 (c14_r5.go): (a) feature programs whose nested assignment target has a PARENTHESISED container ((rows[i])[j] = v, (m.sub).n = v, (a[i])[1:2] = v, ((g[0])[0])[0] = v, (*p)[0] = v, string elements, stores at index len, op=, ++, multi-assignment; in loops and in function bodies called repeatedly) — tree dump, run k vs run 1, 8 concurrent runs; (b) the type names ST and SU are declared with make(type ..) ONLY inside function bodies and blocks (if, for, for-in, switch, try, recursion 20..60 deep so that many such scopes are alive at once, callbacks, literals of 5 parameters and variadic ones): feature programs probe the names from nested scopes first and declare afterwards (run k vs run 1), the hist group nested-scope-types (every case with index%10==8, and the ordinary draws) runs declarers and probers (also probers whose own environment binds ST/SU at the top level or in a module) in one process, each against its run alone in a fresh child process, and two canaries after every case require that blocks and calls of a FRESH environment find ST/SU undefined, resp. find the types that environment binds at its top level; (c) feature programs in which 4 (regular build also: 8) goroutines of ONE run call the same script function values (5, 6, 8 parameters, variadic, module function, recursive; 2 and 4 parameters for contrast) and add up how many results were not those of their own arguments — a value independent of the schedule, compared between runs; phase shared (regular build) and the last cases of phase conc (race build): sharedfn — 2..4 helper functions of random shape (0..8 fixed parameters or 0..3 fixed plus a variadic rest; named, literal or module function; list-, checksum- or recursive body reading nothing but its parameters) are defined ONCE in a prepared environment, 8 environments are made from it (Env.Copy, Env.DeepCopy or child scopes, each with its own id) and run one tree (40..100 rounds of calls with arguments made of id, the round and literals, also a spread list) first one after the other, then at the same time: each concurrent run must equal its run alone; datamix — ONE tree of a PRNG-drawn program over host data (nested lists, maps, typed slices, strings, id, hid()) with plain and parenthesised nested places as targets of =, op=, ++, multi-assignment, in loops, in functions called twice, slice stores, plus calls, closures, defers, switch, types made from the data and types declared in nested scopes, is run 3..5 times one after the other or 8 times at once in environments whose data DIFFER (also the first data once more at the end): each run must equal a freshly parsed tree of the same text run alone on equal data, and the tree dump must not change. Round 6 (c14_r6.go, phase r6, regular build): (a) keys whose hashability depends on the data — struct types with an interface-typed field (script-made: make(struct{F interface, N int64}), also nested one struct further in and with two interface fields; host-made Go structs) and host-made Go arrays [n]interface{} used as map keys in stores, map literals, lookups (v, ok = m[k]), deletes, op= and ++ on an element, typed maps with interface keys, keys built by one function in a loop; the field names and array lengths are drawn per case, so every case has key types of its own; the data behind `tag` is a first-line spec `# env: keys tag=<kind> harr=<n> hkey=<Name>` with 8 hashable kinds (string, empty string, int64, float64, bool, nil, Go array, Go struct) and 7 unhashable ones (list, empty list, map, typed slice, typed map, func, struct holding a slice); keymix: ONE tree is run 2..6 times one after the other (or 8 times at once) in fresh environments with 2..4 different kinds of data, hashable first or unhashable first by the PRNG; keyprogs: 2..4 DIFFERENT programs over the same key types, each freshly parsed with its own data, run one after the other (sometimes the first once more at the end); every run must equal the same text with the same data run alone in a fresh child process; (b) loadmix: a history of 2..5 steps over one file dir/lib.ank in a directory of the case: each step writes one of 2..4 versions (12 shapes: functions, top-level values, modules, type definitions, lists; failing ones: throw, syntax error, index error, stray break; one shape with another digit or different shapes; mostly padded to ONE length with a comment line) in place or by rename — time stamp pinned with os.Chtimes, put back to that of the first version, left to the clock, or advanced by an hour per step — or removes the file, then runs one of 5 loader programs (load and call, load in a function called twice, value of load, names the file may define, load through a second file that stays as it is; one tree for all steps or a fresh tree per step) in a FRESH environment: every run must equal the loader run alone in a fresh child process (vworker -child c14load) that finds equal files in a directory of its own (directory names are taken out of the observations). A panic out of vm.Run seen in a phase-r6 run or in its child is a violation of its own (signature panic-out-of-run:<site and message>).",
+				Rule:  "each program (hand-written feature programs aimed at per-node runtime data: named/anonymous calls, defer, ++/--, small-int and large-int arithmetic, every literal kind, maps that grow while they are ranged over, import with reassignment of imported members, modules, typed literals, make(type); PRNG-generated programs of all profiles; the repository's own goroutine-free scripts) is parsed ONCE; phase seq: the tree is dumped by reflection, run 3 times (feature programs 8 times) in fresh equal environments and dumped after each run; phase conc (race build): a solo run of a separately parsed tree is the reference, then 8 goroutines run the ONE shared tree at the same time on 8 fresh environments behind a barrier. Required: dumps byte-identical, every run's value/error text/probe trace equal to the solo run, canaries on the shared ++ literal, the small-int cache, the package tables and import isolation after each case, no race report. Non-trivial = parsed and produced at least one probe event or a non-nil value; distinct = distinct source text. Phase hist (process-history independence): complementary sets of programs that drive one interpreter facility with different shapes (plain/variadic, named/anonymous script functions of every arity 0..7 and as Go callbacks; typed slice/map literals, channels and make() over every basic element type; make(type) binding one name to different types; struct types with different field lists; modules of one name with different contents; imports of different packages in different orders; host calls with different argument shapes; the feature programs above; PRNG-generated programs) — a case draws 2..6 members (one group, mixed, or with a generated program), orders them by the PRNG, sometimes repeats the first at the end, and runs them one after the other in the worker process, whose history also holds all earlier cases of its chunk and the canaries; each member's observation must equal its SOLO observation = the program run as the first and only program of a fresh child process. Phase iso (environments never observe each other's bindings): (modcopy) a script binds a module or an imported package to further names (n = m, var n = m, n, k = m, m, through a function result, a list element, a copy of a copy), changes ONE side (member assignment, module functions that set or delete with and without the global flag, also from a nested module, top-level assignment/definition/deletion/var/type definition/function and module definition) and records the view of every side before and after: the views of all other sides must not change; (envcopy) a template environment one or two scopes deep is copied with Env.DeepCopy / Env.Copy (also a copy of a copy), 1..4 changes are applied to one of them through the env API (Define, Set, Delete, DeleteGlobal, DefineType, DefineGlobal, DefineGlobalType, NewModule) or by a script handed to vm.Execute with it, and after every change the views of all OTHER environments (env API Get/Type of every watched name, and a script reading the same names) must be unchanged; (stamp) 2..4 environments stamped from one template (all before the first run, or one by one) run the same source of reads and binding changes: equal value and error text in every run, template unchanged. Phase conc additionally runs stamp cases with 6 environments at the same time in the race build. Canaries after each case also cover: script functions of every arity 0..7 plain and variadic, Env.Copy/DeepCopy isolation, module-copy isolation. Round 4 (c14_env.go): a program may carry a first-line comment `# env: ...` after which the host prepares the otherwise standard environment (env.DefineType of the names T, U and hm.T — in a host-made module — with one of 11 Go types, host float32 values, a meet() function). (a) Feature programs: == / != / in / switch between a float32 (from []float32, [][]float32, map[string]float32 literals and host float32 values) and an ordinary script float, in loops; script functions that end with an error 100..600 times per run (throw, index error, undefined name; through 1..15 nested named, anonymous and module functions and through Go callbacks; always caught further out); recursion 2500 deep (named, closure, mutually recursive) that calls meet() at the bottom — in phase conc the first meet() of each of the 8 runs waits until all runs have called it or have ended, so the deep runs really overlap; error exits followed by a recursion 4000 deep in one program (run k vs run 1; phases seq and hist only, like the error-exit programs). (b) envmix cases (every 37th case of seq and every 60th of the shared-tree part of conc): ONE tree of a text whose struct/slice/map/chan/pointer type expressions name T, U, hm.T is run 4..6 times one after the other (seq) or by 8 goroutines at once (conc) in environments drawn from 2..4 DIFFERENT type bindings; each run must equal the same text run alone in an environment of its kind in a fresh child process. (c) hist: every case with index%10==3 takes one such text under 2..4 different type bindings (the child prepares its environment after the same first line), sometimes with a script that binds the names itself (make(type T, v), module hm { make(type T, v) }; also rebinding T between two evaluations of one type expression); every case with index%10==6 draws from the call-depth group (the error-exit programs and recursions 4000/9000 deep: named, closure, mutually recursive, module function, twice in a row), so that each worker process runs deep recursions after thousands of error exits; both groups are in the ordinary draws too. Round 5 (c14_r5.go): (a) feature programs whose nested assignment target has a PARENTHESISED container ((rows[i])[j] = v, (m.sub).n = v, (a[i])[1:2] = v, ((g[0])[0])[0] = v, (*p)[0] = v, string elements, stores at index len, op=, ++, multi-assignment; in loops and in function bodies called repeatedly) — tree dump, run k vs run 1, 8 concurrent runs; (b) the type names ST and SU are declared with make(type ..) ONLY inside function bodies and blocks (if, for, for-in, switch, try, recursion 20..60 deep so that many such scopes are alive at once, callbacks, literals of 5 parameters and variadic ones): feature programs probe the names from nested scopes first and declare afterwards (run k vs run 1), the hist group nested-scope-types (every case with index%10==8, and the ordinary draws) runs declarers and probers (also probers whose own environment binds ST/SU at the top level or in a module) in one process, each against its run alone in a fresh child process, and two canaries after every case require that blocks and calls of a FRESH environment find ST/SU undefined, resp. find the types that environment binds at its top level; (c) feature programs in which 4 (regular build also: 8) goroutines of ONE run call the same script function values (5, 6, 8 parameters, variadic, module function, recursive; 2 and 4 parameters for contrast) and add up how many results were not those of their own arguments — a value independent of the schedule, compared between runs; phase shared (regular build) and the last cases of phase conc (race build): sharedfn — 2..4 helper functions of random shape (0..8 fixed parameters or 0..3 fixed plus a variadic rest; named, literal or module function; list-, checksum- or recursive body reading nothing but its parameters) are defined ONCE in a prepared environment, 8 environments are made from it (Env.Copy, Env.DeepCopy or child scopes, each with its own id) and run one tree (40..100 rounds of calls with arguments made of id, the round and literals, also a spread list) first one after the other, then at the same time: each concurrent run must equal its run alone; datamix — ONE tree of a PRNG-drawn program over host data (nested lists, maps, typed slices, strings, id, hid()) with plain and parenthesised nested places as targets of =, op=, ++, multi-assignment, in loops, in functions called twice, slice stores, plus calls, closures, defers, switch, types made from the data and types declared in nested scopes, is run 3..5 times one after the other or 8 times at once in environments whose data DIFFER (also the first data once more at the end): each run must equal a freshly parsed tree of the same text run alone on equal data, and the tree dump must not change. Round 6 (c14_r6.go, phase r6, regular build): (a) keys whose hashability depends on the data — struct types with an interface-typed field (script-made: make(struct{F interface, N int64}), also nested one struct further in and with two interface fields; host-made Go structs) and host-made Go arrays [n]interface{} used as map keys in stores, map literals, lookups (v, ok = m[k]), deletes, op= and ++ on an element, typed maps with interface keys, keys built by one function in a loop; the field names and array lengths are drawn per case, so every case has key types of its own; the data behind `tag` is a first-line spec `# env: keys tag=<kind> harr=<n> hkey=<Name>` with 8 hashable kinds (string, empty string, int64, float64, bool, nil, Go array, Go struct) and 7 unhashable ones (list, empty list, map, typed slice, typed map, func, struct holding a slice); keymix: ONE tree is run 2..6 times one after the other (or 8 times at once) in fresh environments with 2..4 different kinds of data, hashable first or unhashable first by the PRNG; keyprogs: 2..4 DIFFERENT programs over the same key types, each freshly parsed with its own data, run one after the other (sometimes the first once more at the end); every run must equal the same text with the same data run alone in a fresh child process; (b) loadmix: a history of 2..5 steps over one file dir/lib.ank in a directory of the case: each step writes one of 2..4 versions (12 shapes: functions, top-level values, modules, type definitions, lists; failing ones: throw, syntax error, index error, stray break; one shape with another digit or different shapes; mostly padded to ONE length with a comment line) in place or by rename — time stamp pinned with os.Chtimes, put back to that of the first version, left to the clock, or advanced by an hour per step — or removes the file, then runs one of 5 loader programs (load and call, load in a function called twice, value of load, names the file may define, load through a second file that stays as it is; one tree for all steps or a fresh tree per step) in a FRESH environment: every run must equal the loader run alone in a fresh child process (vworker -child c14load) that finds equal files in a directory of its own (directory names are taken out of the observations). A panic out of vm.Run seen in a phase-r6 run or in its child is a violation of its own (signature panic-out-of-run:<site and message>)." + c14R8Rule + c14R9Rule,
 				Assumptions: []string{"corpus scripts that use import, goroutines, channels, map iteration, keys(), printing or time are outside the repeatability domain and are skipped", "a run cut by the execution watchdog is inconclusive, never compared",
 					"hist: the solo reference is taken in a child process of the same worker binary; a child that fails to deliver an observation makes the member inconclusive",
 					"iso compares bindings only: values reachable from both sides by reference (lists, maps, nested modules — shared by Copy/DeepCopy and by module assignment like any other value) are never mutated in place; a function is a closure over the environment it was defined in, so calling a template's or module's function through a copy counts as a change of the ORIGINAL; under Env.Copy the parent scopes stay shared by contract, so only the copied scope is changed",
@@ -350,18 +352,23 @@ func init() {
 					"programs that start goroutines themselves are used only where their value does not depend on the schedule (each goroutine checks its own calls, the counts are added up); they are compared between runs like every other program, nothing is required of the order of their events",
 					"datamix takes its reference in the same process from a freshly parsed tree: what is compared is the shared tree, not the process history (phase hist does that)",
 					"a struct-typed binding shares its cell between an environment and its Env.Copy / Env.DeepCopy copies on the unchanged tree (reported in C14-r5-genuine.md): the binding gs and the change script-struct-field-assign of phase iso are written but held back by c14PendingFix_copySharesStructCell; module environments bound in a copied scope stay shared by Copy/DeepCopy like every other reference value (Copy's documented contract), stores into them are not in the domain",
-					"phase r6: the file a run loads is part of what the run is given, like the data its environment binds: \"alone\" means alone over equal files; time stamps only shape the history (no verdict reads the clock); the key programs catch and record every map operation that the data may make fail, nothing is assumed about which data a key may hold: a run is only compared with the same text and data run alone"},
-				Phases: []fw.Phase{
+					"phase r6: the file a run loads is part of what the run is given, like the data its environment binds: \"alone\" means alone over equal files; time stamps only shape the history (no verdict reads the clock); the key programs catch and record every map operation that the data may make fail, nothing is assumed about which data a key may hold: a run is only compared with the same text and data run alone",
+					c14R8Assumptions[0], c14R8Assumptions[1], c14R8Assumptions[2], c14R9Assumptions[0], c14R9Assumptions[1]},
+				Phases: append([]fw.Phase{
 					{Name: "seq", Cases: nSeq, Chunk: 100, TimeoutS: 900},
 					{Name: "hist", Cases: nHist, Chunk: 50, TimeoutS: 900},
 					{Name: "iso", Cases: nIso, Chunk: 150, TimeoutS: 900},
 					{Name: "conc", Race: true, Cases: nConc, Chunk: 40, TimeoutS: 900, Jobs: 8},
 					{Name: "shared", Cases: c14R5SharedCases(tier), Chunk: 70, TimeoutS: 900, Jobs: 4, MemMB: 3072},
 					{Name: "r6", Cases: c14R6Cases(tier), Chunk: 40, TimeoutS: 900, Jobs: 4, MemMB: 3072},
-				},
+				}, append(c14R8Phases(tier), c14R9Phases(tier)...)...),
 			}
 		},
 		Run: func(c *wk.Case) {
+			// round 8 (c14_r8.go): volume and history
+			if c14R8Run(c) || c14R9Run(c) {
+				return
+			}
 			switch {
 			case c.Phase == "hist":
 				c14RunHist(c)
